@@ -83,6 +83,16 @@ Theorem C02_integers_in_range_iff_accepted :
 Proof. exact integers_in_range_accepted_out_of_range_rejected. Qed.
 Print Assumptions C02_integers_in_range_iff_accepted.
 
+(* 5b. ... at any depth: a uint<M>/int<M> leaf holding an out-of-range integer anywhere below array /
+      tuple nodes makes the encoding of the whole tree fail (pass 1 returns the first child error). *)
+Theorem C02_out_of_range_leaf_rejected :
+  forall e s m k l z x,
+    (e = EInt \/ e = EUInt) -> tc_wf (int_tc e s m k) = true -> ~ in_range e m z ->
+    sub (CV (Some (int_tc e s m k)) l (GBigInt z)) x ->
+    forall r, encodeABIData x <> Ok r.
+Proof. exact out_of_range_leaf_rejected. Qed.
+Print Assumptions C02_out_of_range_leaf_rejected.
+
 (* an integral float denotes itself: the truncation used above is the value mant * 2^exp *)
 Theorem C02_integral_float_exact :
   forall mant e, bf_is_int mant e = true ->
@@ -152,6 +162,18 @@ Example C02_integers_nonvacuous :
   run i8 (XStr (ascii_bytes "-0x80")) = Ok (word (-128)) /\ is_err (run i8 (XBigInt (Some 128%Z))) = true /\
   run i8 (XF64 (F64 (-129) 0)) = Err EncModel.ETooLarge /\ run i8 (XF64 (F64 127 0)) = Ok (word 127).
 Proof. cbv zeta. repeat split; vm_compute; reflexivity. Qed.
+
+(* theorem 5b: uint8 = 256 two levels down *)
+Example C02_out_of_range_leaf_nonvacuous :
+  let u8 := int_tc EUInt (ascii_bytes "8") 8 [] in
+  let leaf := CV (Some u8) [] (GBigInt 256) in
+  let arr := TCDynArr u8 [] in
+  let x := CV (Some (TCTuple [arr] [])) [CV (Some arr) [CV (Some u8) [] (GBigInt 1); leaf] GNil] GNil in
+  sub leaf x /\ ~ in_range EUInt 8 256 /\ is_err (encodeABIData x) = true.
+Proof.
+  cbv zeta. split; [|split; [unfold in_range, two; simpl; lia|vm_compute; reflexivity]].
+  eapply sub_child; [reflexivity|left; reflexivity|]. eapply sub_child; [reflexivity|right; left; reflexivity|]. apply sub_refl.
+Qed.
 
 (* theorem 6 *)
 Example C02_arity_nonvacuous :
